@@ -29,10 +29,15 @@ void mp::internal::WriteMessage(fmt::BufferedFile &file, const char *message) {
       ++line_end;
     // Replace an empty line with a line containing a single space
     // because an empty line indicates the end of message.
-    if (line_end == line_start
-        && *line_end)           // but not when end of string
+    // (A line holding just a carriage return is empty for readers
+    // which accept Windows line ends.)
+    bool only_cr = line_end - line_start == 1 && *line_start == '\r';
+    if ((line_end == line_start || only_cr)
+        && *line_end) {         // but not when end of string
       std::fputc(' ', file.get());
-    else {
+      if (only_cr)
+        std::fputc('\r', file.get());
+    } else {
       std::fwrite(line_start, 1, line_end - line_start, file.get());
       if (!*line_end)
         std::fputc('\n', file.get()); // make empty line in the end
